@@ -45,6 +45,18 @@ type observed struct {
 	err *sut.ErrInfo
 }
 
+// firstWords: the stable beginning of a message (up to the first colon or two words) for a signature
+func firstWords(m string) string {
+	if i := strings.Index(m, ":"); i > 0 && i < 40 {
+		return strings.ReplaceAll(m[:i], " ", "-")
+	}
+	f := strings.Fields(m)
+	if len(f) > 2 {
+		f = f[:2]
+	}
+	return strings.Join(f, "-")
+}
+
 // judgeError applies the diagnostic oracle to one returned error. texts maps file names to their text.
 func judgeError(name string, op string, e *sut.ErrInfo, texts map[string]string, inputs []string) *ev.Verdict {
 	quoted := func(s string) bool { // the matched text comes from an input
@@ -68,6 +80,11 @@ func judgeError(name string, op string, e *sut.ErrInfo, texts map[string]string,
 	}
 	if e.Code == 1 {
 		return ev.V("internal-failure-code:"+op, "%s failed with the internal code 1 'Runtime Failure'", op)
+	}
+	if e.Code <= 0 {
+		// "a diagnostic with a stable numeric code": an error of a diagnostic type that carries no code is what
+		// the library wraps a foreign error in (a Go library's own error text behind "ERROR:")
+		return ev.V("no-code:"+firstWords(e.Message), "%s: the rejection carries no numeric code: %q", op, e.Rendered)
 	}
 	if suspect[e.Code] {
 		ev.Class(name, fmt.Sprintf("suspect internal-looking code %d", e.Code))
